@@ -69,9 +69,10 @@ Theorem C18_quadrature_asin_refuted :
            (quadrature RO AngAsin c_wit [q_wit]).
 Proof. exact quadrature_asin_refuted. Qed.
 
-(* 5. weights: positive; their sum is the volume PI r^2 h up to the error of the table sums
-      (7e-12, 4e-7, 8e-7) * r^2 h / 2 — PROVED from this run's tables (|disk sum - PI| by Interval);
-      exactly the volume whenever disk sum = PI and line sum = 2 *)
+(* 5. weights: positive; _cylinder_quadrature_from_product normalises the disk weights to PI, so their sum
+      is the volume PI r^2 h EXACTLY for the Chebyshev kinds ('medium', 'expensive': line weights normalised
+      to 2 by the source) and up to the rounding of numpy's Gauss-Legendre weights (|sum - 2| <= 1e-12,
+      checked on this run's tables) for 'cheap': sum_tol = 4e-12, 0, 0 *)
 Theorem C18_weights_positive_sum_volume : forall (kind : Z) md (c : cylinder RO) (rule : list (vec RO * R)),
   is_rule kind rule -> 0 < cy_r c -> 0 < cy_h c ->
   Forall (fun pw => 0 < snd pw) (quadrature RO md c rule) /\
@@ -83,9 +84,13 @@ Proof.
                 (rule_weights_sum kind md c rule Hq (Rlt_le _ _ Hr) (Rlt_le _ _ Hh))).
 Qed.
 Theorem C18_weights_sum_volume_exact : forall md (c : cylinder RO) (disk : list (R * R * R)) (line : list (R * R)),
-  Rsum (map snd disk) = PI -> Rsum (map snd line) = 2 ->
-  Rsum (map snd (quadrature RO md c (product_rule RO disk line))) = cyl_volume (cy_r c) (cy_h c).
-Proof. exact weights_sum_volume. Qed.
+  Forall (fun d => 0 < snd d) disk -> disk <> [] -> Rsum (map snd line) = 2 ->
+  Rsum (map snd (quadrature RO md c (cyl_product_rule RO disk line))) = cyl_volume (cy_r c) (cy_h c).
+Proof. exact weights_sum_volume_normalised. Qed.
+Theorem C18_weights_sum_volume_exact_cheb : forall (kind : Z) md (c : cylinder RO) (rule : list (vec RO * R)),
+  is_rule kind rule -> kind <> 0%Z -> 0 <= cy_r c -> 0 <= cy_h c ->
+  Rsum (map snd (quadrature RO md c rule)) = cyl_volume (cy_r c) (cy_h c).
+Proof. exact rule_weights_sum_cheb. Qed.
 
 (* 6. moments (partial): degree <= 1 for every rule whose first moments vanish — the weighted sum of the
       points is (sum of weights) * centre; degree 2 and 3 along the axis — (h/2)^k times the rule's
